@@ -91,7 +91,9 @@ pub fn gen_closed_term(r: &mut Rng, c: &GenCfg) -> Tm {
             return t;
         }
     }
-    Tm::leaf("c", vec![])
+    // fallback: the simplest leaf of the language
+    let o = c.ops.iter().filter_map(|o| c.lang.op(o)).find(|o| o.fields.is_empty()).or_else(|| c.ops.iter().filter_map(|o| c.lang.op(o)).find(|o| o.fields.iter().all(|f| matches!(f, Fld::P)))).expect("language without a constant leaf");
+    Tm { op: o.name, slots: vec![], kids: vec![], pay: if o.fields.is_empty() { None } else { Some(payload_token(o.name, r)) } }
 }
 
 /// no node binds the same name twice in one binder list
